@@ -61,6 +61,8 @@ func init() {
 }
 
 func runC03(c *Ctx, r *Report) {
+	r.Rule("C03/error-classes", "each failure site named by the property wraps the sentinel the property names (timeout / auth / connection / privilege / NETCONF / operation / platform error)", 1)
+	checkErrorClasses(c, r, "C03")
 	r.Rule("C03/framing", "serialize: payload, raw copy, 1.0 delimiter and 1.1 chunk framing with the byte length of the value that follows, on all 8 paths", 8)
 	r.Rule("C03/write-sequence", "sendRPC writes framed bytes + return, one more return exactly under 1.1, then waits; the response reports the same serialisation", 4)
 	r.Rule("C03/selfclose-guard", "ForceSelfClosingTags rewrites a pattern match only when its opening tag name equals its closing tag name (the pattern alone has no back-reference)", 1)
